@@ -143,6 +143,11 @@ theorem getTokenIDAndSubject_eq (now : Int) (p : ResProvider) (tok : String) :
     simp only []
     cases hv : Gen.OPVerifyAccessToken now (p.tokenOf tok) p.verifier <;> simp [resolved]
 
+/-- the regenerated `revocationKeySet.verifier`: the provider's verifier for the request comes back with ALL its settings (issuer,
+    supported signing algorithms, offsets) and a key set that verifies as its own -/
+theorem revocationKeySetVerifier_eq (now : Int) (k : ResRevocationKeys) (v : Verifier) : GenRes.revocationKeySetVerifier now k v = v := by
+  unfold GenRes.revocationKeySetVerifier; cases v; rfl
+
 theorem getTokenIDAndSubjectForRevocation_eq (now : Int) (p : ResProvider) (tok : String) :
     GenRes.getTokenIDAndSubjectForRevocation now p tok = .ok (resolved (resolve now p tok)) := by
   unfold GenRes.getTokenIDAndSubjectForRevocation resolve ResProvider.Crypto ResProvider.AccessTokenVerifier Hand.resVerifyAccessToken
@@ -156,7 +161,7 @@ theorem getTokenIDAndSubjectForRevocation_eq (now : Int) (p : ResProvider) (tok 
       split <;> simp_all [resolved]
   | error e =>
     -- the key-set recorder of the revocation reader hands the verifier on unchanged and never holds an error in this model
-    simp only [ResRevocationKeys.verifier]
+    simp only [revocationKeySetVerifier_eq]
     cases hv : Gen.OPVerifyAccessToken now (p.tokenOf tok) p.verifier <;>
       simp [resolved, Go.notNil, Go.Nilable.isNil, show (default : ResRevocationKeys).err.isSet = false from rfl]
 
@@ -360,10 +365,10 @@ theorem introspect_spec (rt : Router) (atp : ResATProvider) (e : Env) (s : St) (
   cases rt <;> cases caller <;> simp [introspect, Introspect_eq, LegacyIntrospect_eq, callerR, Except.map]
 
 theorem revokeToken_out (w : ResWorld) (a b c : String) : (w.RevokeToken a b c).1.out = w.out := by
-  unfold ResWorld.RevokeToken; rfl
+  unfold ResWorld.RevokeToken; split <;> rfl
 
 /-- the world a revocation request of `e` runs in: the storage, seen under the issuer of the request -/
-def worldOf (e : Env) (s : St) : ResWorld := { store := s, ctxIssuer := e.issuer }
+def worldOf (e : Env) (s : St) : ResWorld := { store := s, ctxIssuer := e.issuer, faults := e.faults }
 
 theorem revoke_spec (rt : Router) (atp : ResATProvider) (e : Env) (s : St) (caller : Option String) (hint tok : String) :
     revoke rt atp e s caller hint tok =
@@ -387,7 +392,7 @@ theorem revoke_spec (rt : Router) (atp : ResATProvider) (e : Env) (s : St) (call
       simp only [revoke, Revoke_eq, callerR, Except.map]
       have := hout c
       unfold worldOf at this ⊢
-      cases hr : refRevoke e.now (provider atp e s) { store := s, ctxIssuer := e.issuer } tok c with
+      cases hr : refRevoke e.now (provider atp e s) { store := s, ctxIssuer := e.issuer, faults := e.faults } tok c with
       | mk w x =>
         rw [hr] at this
         cases x <;> simp_all [Hand.resRevocationRequestError, Hand.resMarshalJSON]
@@ -396,7 +401,7 @@ theorem revoke_spec (rt : Router) (atp : ResATProvider) (e : Env) (s : St) (call
     | none => rfl
     | some c =>
       simp only [revoke, LegacyRevocation_eq, worldOf]
-      cases hr : refRevoke e.now (provider atp e s) { store := s, ctxIssuer := e.issuer } tok c with
+      cases hr : refRevoke e.now (provider atp e s) { store := s, ctxIssuer := e.issuer, faults := e.faults } tok c with
       | mk w x => cases x <;> simp
 
 /-- the two shapes of an introspection answer: the zero value, or the fields of a LIVE token whose audience contains the caller -/
@@ -424,13 +429,24 @@ def requestIssuer : Op → Option String
   | .userinfo _ e _ => some e.issuer
   | .introspect _ e _ _ => some e.issuer
   | .exchange e _ _ => some e.issuer
-  | .refresh iss _ => some iss
+  | .refresh e _ => some e.issuer
   | _ => none
 
 /-- the token is live and the storage shows it to calls made under issuer `iss` -/
 def VisibleLive (s : St) (iss : String) : Ref → Prop
   | .at id => ∃ t, t ∈ s.toks ∧ t.id = id ∧ t.live = true ∧ s.sees iss t.issuer = true
   | .rt tok => ∃ r, r ∈ s.rtoks ∧ r.token = tok ∧ r.live = true ∧ s.sees iss r.issuer = true
+
+/-- the refresh-token lookup of a request answers only for a live token the storage shows under the request's issuer - and not
+    at all while the storage call fails -/
+theorem tokenRequest_ok {e : Env} {s : St} {tok : String} {r : RTok} (h : tokenRequestByRefreshToken e s tok = .ok r) :
+    s.liveR e.issuer tok = some r := by
+  unfold tokenRequestByRefreshToken St.TokenRequestByRefreshToken at h
+  split at h
+  · simp at h
+  · cases hl : s.liveR e.issuer tok with
+    | none => simp [hl] at h
+    | some r' => simp [hl] at h; rw [h]
 
 theorem honoured_visible (atp : ResATProvider) (s : St) (op : Op) (x : Ref) (h : (step atp s op).2 = some x) :
     ∃ iss, requestIssuer op = some iss ∧ VisibleLive s iss x := by
@@ -469,23 +485,27 @@ theorem honoured_visible (atp : ResATProvider) (s : St) (op : Op) (x : Ref) (h :
     refine ⟨e.issuer, rfl, ?_⟩
     simp only [step, exchange] at h
     split at h
-    · unfold St.TokenRequestByRefreshToken at h
-      cases hl : s.liveR e.issuer tok with
-      | none => simp [hl] at h
-      | some r => simp [hl] at h; subst h; exact ⟨r, (liveR_some hl).1, rfl, (liveR_some hl).2.2.1, (liveR_some hl).2.2.2⟩
+    · cases hq : tokenRequestByRefreshToken e s tok with
+      | error err => simp [hq] at h
+      | ok r =>
+        simp [hq] at h; subst h
+        have hl := tokenRequest_ok hq
+        exact ⟨r, (liveR_some hl).1, rfl, (liveR_some hl).2.2.1, (liveR_some hl).2.2.2⟩
     · split at h
       · rename_i id _ _ _
         cases hl : s.liveTok e.issuer id with
         | none => simp [hl] at h
         | some t => simp [hl] at h; subst h; exact ⟨t, (liveTok_some hl).1, rfl, (liveTok_some hl).2.2.1, (liveTok_some hl).2.2.2⟩
       · simp at h
-  | refresh iss tok =>
-    refine ⟨iss, rfl, ?_⟩
+  | refresh e tok =>
+    refine ⟨e.issuer, rfl, ?_⟩
     simp only [step] at h
-    unfold St.TokenRequestByRefreshToken at h
-    cases hl : s.liveR iss tok with
-    | none => simp [hl] at h
-    | some r => simp [hl] at h; subst h; exact ⟨r, (liveR_some hl).1, rfl, (liveR_some hl).2.2.1, (liveR_some hl).2.2.2⟩
+    cases hq : tokenRequestByRefreshToken e s tok with
+    | error err => simp [hq] at h
+    | ok r =>
+      simp [hq] at h; subst h
+      have hl := tokenRequest_ok hq
+      exact ⟨r, (liveR_some hl).1, rfl, (liveR_some hl).2.2.1, (liveR_some hl).2.2.2⟩
 
 /-- C08 (1): whatever is honoured - userinfo claims, active:true, an accepted exchange subject (access or refresh token), a
     refresh grant - belongs to a token the storage knows that is neither expired, revoked nor removed; on both routers, for ANY
@@ -578,7 +598,10 @@ theorem refRevoke_rewrites (now : Int) (p : ResProvider) (e : Env) (s : St) (tok
   split
   · exact Rewrites.refl s
   · rename_i t sub _
-    exact revokeToken_rewrites s e.issuer t sub cid
+    unfold ResWorld.RevokeToken worldOf
+    split
+    · exact Rewrites.refl s
+    · exact revokeToken_rewrites s e.issuer t sub cid
 
 theorem revoke_rewrites (rt : Router) (atp : ResATProvider) (e : Env) (s : St) (c : Option String) (hint tok : String) :
     Rewrites s (revoke rt atp e s c hint tok).1 := by
@@ -610,10 +633,10 @@ theorem dead_step (atp : ResATProvider) (s : St) (op : Op) (x : Ref) (h : Dead s
   | exchange e a tok => exact ⟨h, hk⟩
   | revoke rt e c hint tok => exact (revoke_rewrites rt atp e s c hint tok).dead x h hk
   | endSession i sub cl => exact (terminate_rewrites s i sub cl).dead x h hk
-  | refresh i tok =>
+  | refresh e tok =>
     simp only [step]
     split
-    · exact (rotate_rewrites s i tok).dead x h hk
+    · exact (rotate_rewrites s e.issuer tok).dead x h hk
     · exact ⟨h, hk⟩
   | expire y =>
     cases y with
@@ -678,28 +701,34 @@ theorem revocation_sticks (atp : ResATProvider) (ops : List Op) (s : St) (x : Re
 
 /-! ### (3) revocation: by the owner (every hint), by a foreign client, of unknown strings -/
 
-theorem getRefreshTokenInfo_none {e : Env} {s : St} {cid tok : String} (h : s.lookupR e.issuer tok = none) :
-    (worldOf e s).GetRefreshTokenInfo cid tok = .error "ErrInvalidRefreshToken" := by
-  simp [worldOf, ResWorld.GetRefreshTokenInfo, St.GetRefreshTokenInfo, h]
+/-- none of the storage calls of the revocation handlers fails while the request of `e` is served -/
+def NoRevocationFault (e : Env) : Prop := e.faults.contains "RevokeToken" = false ∧ e.faults.contains "GetRefreshTokenInfo" = false
 
-theorem getRefreshTokenInfo_some {e : Env} {s : St} {cid tok : String} {r : RTok} (h : s.lookupR e.issuer tok = some r) :
+theorem NoRevocationFault.rt {e : Env} (h : NoRevocationFault e) : ¬ "RevokeToken" ∈ e.faults := by simpa using h.1
+theorem NoRevocationFault.gi {e : Env} (h : NoRevocationFault e) : ¬ "GetRefreshTokenInfo" ∈ e.faults := by simpa using h.2
+
+theorem getRefreshTokenInfo_none {e : Env} {s : St} {cid tok : String} (hf : NoRevocationFault e) (h : s.lookupR e.issuer tok = none) :
+    (worldOf e s).GetRefreshTokenInfo cid tok = .error "ErrInvalidRefreshToken" := by
+  simp [worldOf, ResWorld.GetRefreshTokenInfo, St.GetRefreshTokenInfo, h, hf.gi]
+
+theorem getRefreshTokenInfo_some {e : Env} {s : St} {cid tok : String} {r : RTok} (hf : NoRevocationFault e) (h : s.lookupR e.issuer tok = some r) :
     (worldOf e s).GetRefreshTokenInfo cid tok = .ok (r.subject, tok) := by
-  simp [worldOf, ResWorld.GetRefreshTokenInfo, St.GetRefreshTokenInfo, h, (lookupR_some h).2.1]
+  simp [worldOf, ResWorld.GetRefreshTokenInfo, St.GetRefreshTokenInfo, h, (lookupR_some h).2.1, hf.gi]
 
 /-- a string the storage does not know as a refresh token is revoked as the access token it resolves to -/
 theorem revokeTarget_at {now : Int} {p : ResProvider} {e : Env} {s : St} {tok cid id sub : String}
-    (hr : resolve now p tok = some (id, sub)) (hnr : s.lookupR e.issuer tok = none) :
+    (hf : NoRevocationFault e) (hr : resolve now p tok = some (id, sub)) (hnr : s.lookupR e.issuer tok = none) :
     revokeTarget now p (worldOf e s) tok cid = .ok (id, sub) := by
   unfold revokeTarget asAccess
   rw [hr]
-  simp [getRefreshTokenInfo_none hnr, Hand.resErrorsIs]
+  simp [getRefreshTokenInfo_none hf hnr, Hand.resErrorsIs]
 
 /-- a string the storage knows as a refresh token is revoked as such - whatever the hint says and whatever else it may look like -/
 theorem revokeTarget_rt {now : Int} {p : ResProvider} {e : Env} {s : St} {tok cid : String} {r : RTok}
-    (hl : s.lookupR e.issuer tok = some r) :
+    (hf : NoRevocationFault e) (hl : s.lookupR e.issuer tok = some r) :
     revokeTarget now p (worldOf e s) tok cid = .ok (tok, r.subject) := by
   unfold revokeTarget
-  simp [getRefreshTokenInfo_some hl]
+  simp [getRefreshTokenInfo_some hf hl]
 
 theorem revokeToken_at {s : St} {iss id sub cid : String} {t : Tok} (hl : s.lookup iss id = some t) (hown : t.client = cid) :
     s.RevokeToken iss id sub cid = ({ s with toks := s.toks.map (killTok id) }, .ok ()) := by
@@ -726,46 +755,51 @@ theorem dropR_dead (rtoks : List RTok) (tok : String) : ∀ x, x ∈ rtoks.map (
 /-- C08 (3a): revocation of an ACCESS token by the owning client answers 200 and kills the token - on both routers, for EVERY
     token_type_hint (absent, right, wrong, garbage) and every oracle behaviour.  (`hnr`: the string is not a stored refresh token.) -/
 theorem revoke_kills_at (rt : Router) (atp : ResATProvider) (e : Env) (s : St) (cid hint tok id sub : String) (t : Tok)
+    (hf : NoRevocationFault e)
     (hr : resolve e.now (provider atp e s) tok = some (id, sub)) (hl : s.lookup e.issuer id = some t) (hown : t.client = cid)
     (hnr : s.lookupR e.issuer tok = none) :
     (revoke rt atp e s (some cid) hint tok).2 = .ok ∧ Dead (revoke rt atp e s (some cid) hint tok).1 (.at id) := by
   rw [revoke_spec]
-  simp only [refRevoke, revokeTarget_at hr hnr]
-  simp only [ResWorld.RevokeToken, worldOf, revokeToken_at hl hown]
+  simp only [refRevoke, revokeTarget_at hf hr hnr]
+  simp only [ResWorld.RevokeToken, worldOf, hf.1, Bool.false_eq_true, if_false, revokeToken_at hl hown]
   exact ⟨trivial, killTok_dead s.toks id⟩
 
 /-- C08 (3b): revocation of a REFRESH token by the owning client answers 200 and kills the refresh token AND the access token
     issued with it - on both routers, for EVERY token_type_hint (in particular the wrong one, `access_token`) and every oracle
     behaviour: whatever the string may decrypt to.  (`hn`: refresh-token strings and access-token ids are different name spaces.) -/
 theorem revoke_kills_rt (rt : Router) (atp : ResATProvider) (e : Env) (s : St) (cid hint tok : String) (r : RTok)
+    (hf : NoRevocationFault e)
     (hl : s.lookupR e.issuer tok = some r) (hown : r.client = cid) (hn : s.lookup e.issuer tok = none) :
     (revoke rt atp e s (some cid) hint tok).2 = .ok ∧ Dead (revoke rt atp e s (some cid) hint tok).1 (.rt tok) ∧
       Dead (revoke rt atp e s (some cid) hint tok).1 (.at r.access) := by
   rw [revoke_spec]
-  simp only [refRevoke, revokeTarget_rt (cid := cid) hl]
-  simp only [ResWorld.RevokeToken, worldOf, revokeToken_rt hn hl hown]
+  simp only [refRevoke, revokeTarget_rt (cid := cid) hf hl]
+  simp only [ResWorld.RevokeToken, worldOf, hf.1, Bool.false_eq_true, if_false, revokeToken_rt hn hl hown]
   exact ⟨trivial, dropR_dead s.rtoks tok, killTok_dead s.toks r.access⟩
 
 /-- revocation of an access token by another client is refused and changes nothing -/
 theorem foreign_revoke_refused_at (rt : Router) (atp : ResATProvider) (e : Env) (s : St) (cid hint tok id sub : String) (t : Tok)
+    (hf : NoRevocationFault e)
     (hr : resolve e.now (provider atp e s) tok = some (id, sub)) (hl : s.lookup e.issuer id = some t) (hforeign : t.client ≠ cid)
     (hnr : s.lookupR e.issuer tok = none) :
     revoke rt atp e s (some cid) hint tok = (s, .refused) := by
   rw [revoke_spec]
-  simp only [refRevoke, revokeTarget_at hr hnr]
-  simp [ResWorld.RevokeToken, worldOf, St.RevokeToken, hl, hforeign]
+  simp only [refRevoke, revokeTarget_at hf hr hnr]
+  simp [ResWorld.RevokeToken, worldOf, St.RevokeToken, hl, hforeign, hf.rt]
 
 /-- revocation of a refresh token by another client is refused and changes nothing - under every hint -/
 theorem foreign_revoke_refused_rt (rt : Router) (atp : ResATProvider) (e : Env) (s : St) (cid hint tok : String) (r : RTok)
+    (hf : NoRevocationFault e)
     (hl : s.lookupR e.issuer tok = some r) (hforeign : r.client ≠ cid) (hn : s.lookup e.issuer tok = none) :
     revoke rt atp e s (some cid) hint tok = (s, .refused) := by
   rw [revoke_spec]
-  simp only [refRevoke, revokeTarget_rt (cid := cid) hl]
-  simp [ResWorld.RevokeToken, worldOf, St.RevokeToken, hn, hl, hforeign]
+  simp only [refRevoke, revokeTarget_rt (cid := cid) hf hl]
+  simp [ResWorld.RevokeToken, worldOf, St.RevokeToken, hn, hl, hforeign, hf.rt]
 
 /-- unknown or garbage strings (neither a stored refresh token, nor resolving to a stored access-token id, nor a stored name
     themselves - as seen under the issuer of the request) are answered 200 without effect -/
 theorem unknown_revoke_ok (rt : Router) (atp : ResATProvider) (e : Env) (s : St) (cid hint tok : String)
+    (hf : NoRevocationFault e)
     (hnr : s.lookupR e.issuer tok = none)
     (hna : s.lookup e.issuer (asAccess e.now (provider atp e s) tok).1 = none)
     (hnb : s.lookupR e.issuer (asAccess e.now (provider atp e s) tok).1 = none) :
@@ -773,9 +807,9 @@ theorem unknown_revoke_ok (rt : Router) (atp : ResATProvider) (e : Env) (s : St)
   rw [revoke_spec]
   have ht : revokeTarget e.now (provider atp e s) (worldOf e s) tok cid = .ok (asAccess e.now (provider atp e s) tok) := by
     unfold revokeTarget
-    simp [getRefreshTokenInfo_none hnr, Hand.resErrorsIs]
+    simp [getRefreshTokenInfo_none hf hnr, Hand.resErrorsIs]
   simp only [refRevoke, ht]
-  simp [ResWorld.RevokeToken, worldOf, St.RevokeToken, hna, hnb]
+  simp [ResWorld.RevokeToken, worldOf, St.RevokeToken, hna, hnb, hf.rt]
 
 /-- C08 (4): an introspection answer is `unauthorized`, or the constant zero-valued inactive answer (it carries no field of any
     token), or the fields of a LIVE token whose audience contains the authenticated caller -/
@@ -1048,7 +1082,7 @@ def exEnvB : Env := { exEnvA with issuer := "https://b.example" }
 example : (step {} exSt (.userinfo .provider exEnv "opaque1")).2 = some (.at "at1") := by decide
 example : (step {} exSt (.introspect .legacy exEnv (some "web") "opaque1")).2 = some (.at "at1") := by decide
 example : (step {} exSt (.introspect .provider exEnv (some "other") "opaque1")).2 = none := by decide
-example : (run {} exSt [.exchange exEnv true "rt1", .refresh "" "rt1", .refresh "" "rt1"]).2 = [some (.rt "rt1"), some (.rt "rt1"), none] := by decide
+example : (run {} exSt [.exchange exEnv true "rt1", .refresh {} "rt1", .refresh {} "rt1"]).2 = [some (.rt "rt1"), some (.rt "rt1"), none] := by decide
 -- a JWT access token of issuer A: honoured at A, refused at B (both routers, all three endpoints), refused at A once expired
 example : (step exATP exSt (.userinfo .provider exEnvA "jwtA")).2 = some (.at "at1") := by decide
 example : (step exATP exSt (.userinfo .provider exEnvB "jwtA")).2 = none := by decide
@@ -1059,19 +1093,19 @@ example : (step exATP exSt (.userinfo .legacy { exEnvA with now := 3000 * Go.sec
 -- revocation by the owner: access token (wrong hint), refresh token (no hint / wrong hint / garbage hint): dead everywhere afterwards
 example : (run {} exSt [.revoke .provider exEnv (some "web") "refresh_token" "opaque1", .userinfo .provider exEnv "opaque1",
     .introspect .provider exEnv (some "web") "opaque1", .exchange exEnv false "opaque1"]).2 = [none, none, none, none] := by decide
-example : (run {} exSt [.revoke .legacy exEnv (some "web") "access_token" "rt1", .refresh "" "rt1", .exchange exEnv true "rt1",
+example : (run {} exSt [.revoke .legacy exEnv (some "web") "access_token" "rt1", .refresh {} "rt1", .exchange exEnv true "rt1",
     .userinfo .provider exEnv "opaque1"]).2 = [none, none, none, none] := by decide
-example : (run {} exSt [.revoke .provider exEnv (some "web") "bogus" "rt1", .refresh "" "rt1", .userinfo .legacy exEnv "opaque1"]).2 = [none, none, none] := by decide
-example : (run {} exSt [.revoke .provider exEnv (some "evil") "" "rt1", .refresh "" "rt1"]).2 = [none, some (.rt "rt1")] := by decide
-example : (run {} exSt [.endSession "" "u1" "web", .refresh "" "rt1", .userinfo .provider exEnv "opaque1"]).2 = [none, none, none] := by decide
+example : (run {} exSt [.revoke .provider exEnv (some "web") "bogus" "rt1", .refresh {} "rt1", .userinfo .legacy exEnv "opaque1"]).2 = [none, none, none] := by decide
+example : (run {} exSt [.revoke .provider exEnv (some "evil") "" "rt1", .refresh {} "rt1"]).2 = [none, some (.rt "rt1")] := by decide
+example : (run {} exSt [.endSession "" "u1" "web", .refresh {} "rt1", .userinfo .provider exEnv "opaque1"]).2 = [none, none, none] := by decide
 
 -- the hint plays no part: a refresh token whose string happens to "decrypt" to `x:y` is revoked as the refresh token it is, under the
 -- hint access_token as under any other (this was finding F-C08b before the repair)
 def exEnvCollide : Env := { decrypt := fun _ => .ok "x:y" }
-example : (run {} exSt [.revoke .provider exEnvCollide (some "web") "access_token" "rt1", .refresh "" "rt1", .exchange exEnvCollide true "rt1"]).2
+example : (run {} exSt [.revoke .provider exEnvCollide (some "web") "access_token" "rt1", .refresh {} "rt1", .exchange exEnvCollide true "rt1"]).2
     = [none, none, none] := by decide
-example : (run {} exSt [.revoke .legacy exEnvCollide (some "web") "access_token" "rt1", .refresh "" "rt1"]).2 = [none, none] := by decide
-example : (run {} exSt [.revoke .provider exEnvCollide (some "evil") "access_token" "rt1", .refresh "" "rt1"]).2 = [none, some (.rt "rt1")] := by decide
+example : (run {} exSt [.revoke .legacy exEnvCollide (some "web") "access_token" "rt1", .refresh {} "rt1"]).2 = [none, none] := by decide
+example : (run {} exSt [.revoke .provider exEnvCollide (some "evil") "access_token" "rt1", .refresh {} "rt1"]).2 = [none, some (.rt "rt1")] := by decide
 example : (revoke .provider {} exEnvCollide exSt (some "evil") "access_token" "rt1").2 = .refused := by decide
 
 -- a partitioning storage (multi-issuer provider): the OPAQUE access token and the refresh token created under issuer A are honoured
@@ -1082,10 +1116,10 @@ def exOpB : Env := { exEnv with issuer := "https://b.example" }
 example : (run {} exStP [.userinfo .provider exOpA "opaque1", .introspect .legacy exOpA (some "web") "opaque1", .exchange exOpA false "opaque1",
     .exchange exOpA true "rt1"]).2 = [some (.at "at1"), some (.at "at1"), some (.at "at1"), some (.rt "rt1")] := by decide
 example : (run {} exStP [.userinfo .provider exOpB "opaque1", .introspect .legacy exOpB (some "web") "opaque1", .exchange exOpB false "opaque1",
-    .exchange exOpB true "rt1", .refresh "https://b.example" "rt1"]).2 = [none, none, none, none, none] := by decide
-example : (run {} exStP [.revoke .provider exOpB (some "web") "" "rt1", .endSession "https://b.example" "u1" "web", .refresh "https://a.example" "rt1"]).2
+    .exchange exOpB true "rt1", .refresh exOpB "rt1"]).2 = [none, none, none, none, none] := by decide
+example : (run {} exStP [.revoke .provider exOpB (some "web") "" "rt1", .endSession "https://b.example" "u1" "web", .refresh exOpA "rt1"]).2
     = [none, none, some (.rt "rt1")] := by decide
-example : (run {} exStP [.revoke .legacy exOpA (some "web") "access_token" "rt1", .refresh "https://a.example" "rt1", .userinfo .provider exOpA "opaque1"]).2
+example : (run {} exStP [.revoke .legacy exOpA (some "web") "access_token" "rt1", .refresh exOpA "rt1", .userinfo .provider exOpA "opaque1"]).2
     = [none, none, none] := by decide
 
 -- the request parsers: Basic auth with the registered secret is let through, a wrong secret and a merely identified caller are not
